@@ -307,7 +307,7 @@ pub fn prop() -> Prop<Case> {
     Prop {
         id: "C18",
         level: "exploration",
-        rule: "case = (options, tree T0, 0-7 edits over add/modify(content+mtime)/touch(mtime only)/remove/rename/chmod/chown/kind swap/retarget, options2; in 30% of the cases the second backup excludes one entry of the first version and what lies below it, and the files stored there must be reported deleted); oracle = model diff from the statement (added/deleted by path set; changed iff kind, owner or mode differ, or for files size or mtime, or for symlinks the target; directory and symlink mtimes are not changes): diff(stored T0, unmodified source) is empty; diff(stored T0, T1) equals the model diff entry-for-entry in path order with and without include_unchanged; the next backup's change callback reports exactly one added/changed/unchanged for every file of T1 and one deleted for every file of T0 that is gone. Non-trivial = the edit set yields at least one added, one deleted, one changed entry and one unchanged file; distinct by case hash; plus one fixed scale probe (eight edits against a version of 10 015 index hunks); since round 6 a sixth of the cases make both backups with owner = false (change reports only: a version without owners differs from the tree in every owner, which diff says) and in a fifth a remaining entry is replaced by a fifo or a character device, which counts as deleted",
+        rule: "case = (options, tree T0, 0-7 edits over add/modify(content+mtime)/touch(mtime only)/remove/rename/chmod/chown/kind swap/retarget, options2; in 30% of the cases the second backup excludes one entry of the first version and what lies below it, and the files stored there must be reported deleted); oracle = model diff from the statement (added/deleted by path set; changed iff kind, owner or mode differ, or for files size or mtime, or for symlinks the target; directory and symlink mtimes are not changes): diff(stored T0, unmodified source) is empty; diff(stored T0, T1) equals the model diff entry-for-entry in path order with and without include_unchanged; the next backup's change callback reports exactly one added/changed/unchanged for every file of T1 and one deleted for every file of T0 that is gone. Non-trivial = the edit set yields at least one added, one deleted, one changed entry and one unchanged file; distinct by case hash; plus one fixed scale probe (eight edits against a version of 10 015 index hunks); since round 6 a sixth of the cases make both backups with owner = false (change reports only: a version without owners differs from the tree in every owner, which diff says) and in a fifth a remaining entry is replaced by a fifo or a character device, which counts as deleted; since round 8 the edit set can spell a symlink's target differently (a trailing '/', a doubled '/', a '/.' appended): other bytes, a changed link",
         assumptions: &[
             "same-size same-mtime content edits are not generated (outside the documented heuristic)",
             "file<->dir/symlink swaps are exempt on the callback side (the callback is silent for non-file kinds)",
